@@ -60,7 +60,9 @@ impl RingCtx {
     fn advance(&mut self, k: u32) -> u32 {
         let n = RegistryKey::try_from(k).expect("key in range").next().as_u32();
         if n < k || n >= self.size { self.wraps += 1; }
-        if n >= self.size { 0 } else { n }
+        // a ring smaller than the key space wraps here; the full ring relies on `next`'s own wrap-around, so a
+        // `next` that hands out the reserved key (or any other wrong key) is used exactly as a real context would
+        if self.size < RegistryKey::DEFAULT_VALUE.as_u32() && n >= self.size { 0 } else { n }
     }
     fn reg_compress(&mut self, ks: &'static str, v: &[u8]) -> Result<RegistryKey, String> {
         let start = self.start;
@@ -363,7 +365,7 @@ fn consistent(inputs: &[Input]) -> bool {
 fn gen_policies(ctx: &mut Ctx, mask_counter: &mut u32) -> fuel_tx::policies::Policies {
     use fuel_tx::policies::{Policies, PolicyType};
     let mask = *mask_counter % 64;
-    *mask_counter += 1;
+    *mask_counter = mask_counter.wrapping_add(1);
     let mut pol = Policies::new();
     let types = [PolicyType::Tip, PolicyType::WitnessLimit, PolicyType::Maturity, PolicyType::MaxFee, PolicyType::Expiration, PolicyType::Owner];
     for t in types {
@@ -464,10 +466,37 @@ pub fn run(ctx: &mut Ctx) {
     if std::env::var("FV_DEBUG_PANIC").is_ok() { std::panic::set_hook(Box::new(|i| eprintln!("{i}"))); }
     let default = RegistryKey::DEFAULT_VALUE.as_u32();
     // key arithmetic against the real code, at the boundary
-    for k in [0u32, 1, 255, 256, 65535, 65536, default - 2, default - 1] {
-        let n = RegistryKey::try_from(k).unwrap().next().as_u32();
-        if n == default || (k == default - 1) != (n == 0) { ctx.oracle_fail("registry-key-next", &format!("key {k}"), &format!("next = {n}")); }
+    // every combination of boundary bytes (carry in / carry out of each of the three key bytes) and random keys:
+    // next(k) is k + 1, wrapping from the last writable key to zero, and is never the reserved default key
+    let bb = [0u32, 1, 0x7f, 0x80, 0xfe, 0xff];
+    let mut keys: Vec<u32> = vec![];
+    for a in bb { for b in bb { for c in bb { keys.push(a << 16 | b << 8 | c); } } }
+    for _ in 0..ctx.n(200, 20_000) { keys.push(ctx.rng.below(default as u64) as u32); }
+    for k in keys {
+        if k == default { continue; }
+        let kk = RegistryKey::try_from(k).unwrap();
+        match ctx.guard(|| kk.next().as_u32()) {
+            Ok(n) => { ctx.count("key-next"); if n != (k + 1) % default { ctx.oracle_fail("registry-key-next", &format!("key {k:#08x}"), &format!("next = {n:#08x}, expected {:#08x}", (k + 1) % default)); } }
+            Err(m) => ctx.oracle_fail("registry-key-next", &format!("key {k:#08x}"), &format!("panic: {m}")),
+        }
     }
+    // short histories over the full ring whose cursor starts a few allocations before a byte carry
+    // (each key byte at its maximum, one below it, or zero)
+    let mut cseed = ctx.seed.wrapping_mul(7_000_003);
+    let mut cmask: u32 = (ctx.seed as u32).wrapping_mul(37) % 1_000_000;
+    for a in [0xffu32, 0xfe, 0] { for b in [0xffu32, 0xfe, 0] { for c in [0xffu32, 0xfe, 0] {
+        let start = a << 16 | b << 8 | c;
+        if start == default { continue; }
+        let mut rc = RingCtx::new(default, start);
+        ctx.emit(&format!("new {default} {start}"), "ok");
+        ctx.count("carry-start");
+        let p = pools(ctx);
+        for _ in 0..ctx.n(2, 6) {
+            cseed = cseed.wrapping_add(1);
+            let (tx, kind) = gen_tx(ctx, &p, cseed, &mut cmask);
+            one_tx(ctx, &mut rc, &tx, kind);
+        }
+    } } }
     let nseq = ctx.n(24, 400);
     let mut seed = ctx.seed.wrapping_mul(1_000_003);
     let mut mask_counter: u32 = ctx.seed as u32;
